@@ -280,6 +280,17 @@ class Interp(object):
             if r is None:
                 return None
             return r if isinstance(test.ops[0], ast.Is) else (not r)
+        if isinstance(test, ast.Compare) and len(test.ops) == 1 and isinstance(test.left, ast.Call) and isinstance(test.left.func, ast.Name) and test.left.func.id == "len" \
+                and len(test.left.args) == 1 and isinstance(test.comparators[0], ast.Constant) and isinstance(test.comparators[0].value, int):
+            # `len(bounds) != 2` under a configuration whose `bounds` is a known pair
+            lv = self.ev(frame, env, test.left.args[0])
+            if lv.k in ("tuple", "list") and lv.items is not None and not lv.nul:
+                a, b = len(lv.items), test.comparators[0].value
+                op = test.ops[0]
+                r = a == b if isinstance(op, ast.Eq) else a != b if isinstance(op, ast.NotEq) else a < b if isinstance(op, ast.Lt) else a <= b if isinstance(op, ast.LtE) \
+                    else a > b if isinstance(op, ast.Gt) else a >= b if isinstance(op, ast.GtE) else None
+                if r is not None:
+                    return r
         v = self.ev(frame, env, test)
         if v.nul:
             return None if v.truth is not False else False
